@@ -185,7 +185,12 @@ func verifRoot() string {
 
 func loadKnown() {
 	knownOnce.Do(func() {
-		b, err := os.ReadFile(filepath.Join(verifRoot(), "known_findings.json"))
+		path := filepath.Join(verifRoot(), "known_findings.json")
+		if alt := os.Getenv("VERIF_KNOWN_FILE"); alt != "" {
+			// developer override for sensitivity runs ("what if this finding were fixed/unlisted?")
+			path = alt
+		}
+		b, err := os.ReadFile(path)
 		if err != nil {
 			return
 		}
